@@ -31,6 +31,10 @@ type AttributePath struct {
 	Lockable bool
 	// Path is handled by Git LFS (i.e., filter=lfs)
 	Tracked bool
+	// The entry comes from an attribute file in a subdirectory and its
+	// pattern contains no slash, so it matches at any depth below that
+	// directory, not only directly inside it
+	AnyDepth bool
 }
 
 type AttributeSource struct {
@@ -161,7 +165,9 @@ func AttrPathsFromReader(mp *gitattr.MacroProcessor, fpath, workingDir string, r
 		}
 
 		pattern := line.Pattern().String()
+		anyDepth := false
 		if len(reldir) > 0 {
+			anyDepth = !strings.Contains(strings.TrimSuffix(pattern, "/"), "/")
 			pattern = path.Join(reldir, pattern)
 		}
 
@@ -170,6 +176,7 @@ func AttrPathsFromReader(mp *gitattr.MacroProcessor, fpath, workingDir string, r
 			Source:   source,
 			Lockable: lockable,
 			Tracked:  tracked,
+			AnyDepth: anyDepth,
 		})
 	}
 
